@@ -5,74 +5,75 @@ From GD Require Import C06.Convert C01.Field C01.Read C01.Inst C01.ListLemmas C0
 Import ListNotations.
 Local Open Scope Z_scope.
 
-(* the property at full strength: every well-formed field, every window *)
-Definition read_matches_spec_statement : Prop :=
+(* the property at full strength, for the source variant v: every well-formed
+   field, every window *)
+Definition read_matches_spec_statement (v : variant) : Prop :=
   forall (A : Alg) (db : database) (f : field) (rt : ctype) (s n : Z),
     wf db f -> 0 <= s -> 0 <= n ->
-    impl_read A db rt f s n = Some (spec_window A db rt f s n).
+    impl_read A db v rt f s n = Some (spec_window A db rt f s n).
 
 Lemma wf_m_ab : wf db_ab m_ab.
 Proof. vm_compute. intuition discriminate. Qed.
 
-(* m MULTIPLY a b, a at 2 samples/frame, b at 1: read 4 from sample 1 *)
+(* m MULTIPLY a b, a at 2 samples/frame, b at 1: read 4 from sample 1 (unrepaired code) *)
 Lemma witness_unaligned :
-  impl_read XAlg db_ab F64 m_ab 1 4 =
+  impl_read XAlg db_ab v0 F64 m_ab 1 4 =
     Some [XV 4626322717216342016; XV 4629137466983448576; XV 4635329916471083008; XV 4636737291354636288] /\
   spec_window XAlg db_ab F64 m_ab 1 4 =
     [XV 4626322717216342016; XV 4633641066610819072; XV 4635329916471083008; XV 4639481672377565184] /\
-  uncovered XAlg db_ab F64 m_ab 1 4 = [TUnaligned].
+  uncovered XAlg db_ab v0 F64 m_ab 1 4 = [TUnaligned].
 Proof. vm_compute. auto. Qed.
 
-Lemma statement_refuted : ~ read_matches_spec_statement.
+(* the same read with proposed_fixes/C01-2 *)
+Lemma witness_unaligned_repaired :
+  impl_read XAlg db_ab v1 F64 m_ab 1 4 = Some (spec_window XAlg db_ab F64 m_ab 1 4) /\
+  uncovered XAlg db_ab v1 F64 m_ab 1 4 = [].
+Proof. vm_compute. auto. Qed.
+
+Lemma statement_refuted : ~ read_matches_spec_statement v0.
 Proof.
   intro H.
   pose proof (H XAlg db_ab m_ab F64 1 4 wf_m_ab ltac:(lia) ltac:(lia)) as H0.
   destruct witness_unaligned as (Hi & Hs & _).
   assert (E : Some [XV 4626322717216342016; XV 4629137466983448576; XV 4635329916471083008; XV 4636737291354636288] =
               Some [XV 4626322717216342016; XV 4633641066610819072; XV 4635329916471083008; XV 4639481672377565184]).
-  { transitivity (impl_read XAlg db_ab F64 m_ab 1 4); [symmetry; exact Hi|].
+  { transitivity (impl_read XAlg db_ab v0 F64 m_ab 1 4); [symmetry; exact Hi|].
     transitivity (Some (spec_window XAlg db_ab F64 m_ab 1 4)); [exact H0|]. rewrite Hs. reflexivity. }
   clear - E. injection E as E1. discriminate E1.
 Qed.
 
-(* second input exhausted: 4 samples of unwritten memory instead of none *)
-Lemma witness_second_empty :
-  impl_read XAlg db_short F64 m_ab 5 4 = Some [XU; XU; XU; XU] /\
-  spec_window XAlg db_short F64 m_ab 5 4 = [] /\
-  uncovered XAlg db_short F64 m_ab 5 4 = [TEmpty2].
-Proof. vm_compute. auto. Qed.
-
 (* RAW INT16 before its frame offset, read as FLOAT64: 0.0 instead of NaN *)
 Lemma witness_raw_pad :
-  impl_read XAlg db_fo F64 a 2 4 =
+  impl_read XAlg db_fo v0 F64 a 2 4 =
     Some [XV 0; XV 0; XV 4607182418800017408; XV 4611686018427387904] /\
   spec_window XAlg db_fo F64 a 2 4 =
     [XV 9221120237041090560; XV 9221120237041090560; XV 4607182418800017408; XV 4611686018427387904] /\
-  uncovered XAlg db_fo F64 a 2 4 = [TRawPad].
+  uncovered XAlg db_fo v0 F64 a 2 4 = [TRawPad] /\
+  impl_read XAlg db_fo v1 F64 a 2 4 = Some (spec_window XAlg db_fo F64 a 2 4).
 Proof. vm_compute. auto. Qed.
 
 (* the hypotheses of read_ok are satisfiable on a two-rate field *)
 Lemma covered_example :
-  wf db_ab m_ab /\ covered XAlg db_ab F64 m_ab 2 4 /\
-  impl_read XAlg db_ab F64 m_ab 2 4 =
+  wf db_ab m_ab /\ covered XAlg db_ab v0 F64 m_ab 2 4 /\
+  impl_read XAlg db_ab v0 F64 m_ab 2 4 =
     Some [XV 4633641066610819072; XV 4635329916471083008; XV 4639481672377565184; XV 4640537203540230144].
 Proof. split; [exact wf_m_ab|]. vm_compute. auto. Qed.
 
 (* consequences of read_ok *)
-Lemma read_count_ok (A : Alg) db f rt s n :
-  wf db f -> 0 <= n -> covered A db rt f s n ->
-  read_count A db rt f s n = Some (spec_count db f s n).
+Lemma read_count_ok (A : Alg) db v f rt s n :
+  wf db f -> 0 <= n -> covered A db v rt f s n ->
+  read_count A db v rt f s n = Some (spec_count db f s n).
 Proof.
-  intros Hw Hn Hc. unfold read_count. rewrite (read_ok A db f rt s n Hw Hn Hc). simpl.
+  intros Hw Hn Hc. unfold read_count. rewrite (read_ok A db v f rt s n Hw Hn Hc). simpl.
   now rewrite zlen_spec_window.
 Qed.
 
 (* a returned sample is the documented value of its absolute sample number *)
-Lemma read_sample_ok (A : Alg) db f rt s n i :
-  wf db f -> 0 <= n -> covered A db rt f s n -> 0 <= i < spec_count db f s n ->
-  option_map (fun l => nthZ l i (garbage A)) (impl_read A db rt f s n) = Some (spec_val A db rt f (s + i)).
+Lemma read_sample_ok (A : Alg) db v f rt s n i :
+  wf db f -> 0 <= n -> covered A db v rt f s n -> 0 <= i < spec_count db f s n ->
+  option_map (fun l => nthZ l i (garbage A)) (impl_read A db v rt f s n) = Some (spec_val A db rt f (s + i)).
 Proof.
-  intros Hw Hn Hc Hi. rewrite (read_ok A db f rt s n Hw Hn Hc). simpl. f_equal.
+  intros Hw Hn Hc Hi. rewrite (read_ok A db v f rt s n Hw Hn Hc). simpl. f_equal.
   unfold spec_window. now rewrite nthZ_map_zrange.
 Qed.
 
@@ -85,4 +86,42 @@ Proof.
     apply div_ge_iff in Hk; [|lia]. apply div_lt_iff; [lia|]. nia.
   - split; [auto|]. assert (Hk : k + 1 <= y * s1 / s2) by lia.
     apply div_ge_iff in Hk; [|lia]. apply div_lt_iff; [lia|]. nia.
+Qed.
+
+(* ---- the repaired read path: nothing is excluded for fields without MPLEX ------- *)
+Fixpoint mplex_free (f : field) : Prop :=
+  match f with
+  | Raw _ | Index => True
+  | Phase g _ | Un _ g => mplex_free g
+  | Bin _ g h => mplex_free g /\ mplex_free h
+  | Tri _ g h l => mplex_free g /\ mplex_free h /\ mplex_free l
+  | Mplex _ _ _ _ => False
+  end.
+
+Definition read_repaired (v : variant) : Prop :=
+  v_align v = true /\ v_rawpad v = true /\ v_alloc0 v = true.
+
+Lemma uncovered_repaired (A : Alg) db v f : read_repaired v -> mplex_free f ->
+  forall rt s n, uncovered A db v rt f s n = [].
+Proof.
+  intros (Ha & Hp & Hz). induction f; simpl; intros Hm rt s n.
+  - rewrite Hp. simpl. destruct (n <=? 0); reflexivity.
+  - reflexivity.
+  - apply IHf; auto.
+  - rewrite Hz. simpl. apply IHf; auto.
+  - destruct Hm as [Hm1 Hm2]. rewrite (IHf1 Hm1), Ha. simpl.
+    destruct (spec_count db f1 s n <=? 0); [reflexivity|]. apply IHf2; auto.
+  - destruct Hm as (Hm1 & Hm2 & Hm3). rewrite (IHf1 Hm1), Ha. simpl.
+    destruct (spec_count db f1 s n <=? 0); [reflexivity|]. rewrite (IHf2 Hm2). simpl.
+    match goal with |- (if ?c then _ else _) = _ => destruct c; [reflexivity|] end.
+    match goal with |- (if ?c then _ else _) = _ => destruct c; [reflexivity|] end.
+    apply IHf3; auto.
+  - tauto.
+Qed.
+
+Lemma read_ok_repaired (A : Alg) db v f rt s n :
+  read_repaired v -> wf db f -> mplex_free f -> 0 <= n ->
+  impl_read A db v rt f s n = Some (spec_window A db rt f s n).
+Proof.
+  intros Hv Hw Hm Hn. apply read_ok; auto. unfold covered. apply uncovered_repaired; auto.
 Qed.
